@@ -105,6 +105,14 @@ STAGES["C14"].append(dict(name="backlog", pkg="ristretto", test="TestVf_C14_Back
 for _pid in ["C03", "C05", "C07", "C13", "C17"]:
     STAGES[_pid].append(_conc(_pid, 200, 1000))
 
+# A test process that dies without a harness verdict (a panic in one of the cache's own goroutines, a fatal error) is
+# a violation only where the property speaks about panics or about what every call returns: C08 for the cache, and the
+# z checks (whose harness recovers ordinary panics of the call under test itself, so a dead process there is a fault).
+# For the other cache properties it means "could not be decided" (exit 2): the crash is C08's to report.
+for _pid in ["C01", "C02", "C03", "C04", "C05", "C06", "C07", "C09", "C13", "C14", "C15", "C17", "C18"]:
+    for _st in STAGES[_pid]:
+        _st["crash_is_violation"] = False
+
 RULES = {
     'C01': "cacheconc stage: 2..16 (thorough ..64) goroutines x 10..120 generated ops on 2..32 shared keys (hot-key bias, some owned keys), GOMAXPROCS 1..16, yielding/fake-sleeping callbacks, setBufSize 1..1024, MaxCost 3..22, inside a synctest bubble; every op and callback stamped from one atomic counter; history oracles are linear-time and schedule-independent. Key types uint64,int,int32,uint32,int64,uint,byte,string,[]byte and named types of them (reflection path of KeyToHash); text keys include the empty key, NUL bytes, one number at several widths, shared prefixes, 8/9-byte keys; a yielding ShouldUpdate predicate in some cases; for string/[]byte also Config.KeyToHash mapping all keys onto 1..3 primary hashes with distinct non-zero conflicts (and a distinct-primaries control). Oracle: every value returned by Get/IterValues was supplied by a Set for exactly that key whose invocation precedes the read's return. stress stage: 4..16 goroutines hammer Set/Get/Del on 2..16 keys for 250 ms of real time per case with a tiny write buffer and an applier stalled inside Config.Cost; every value carries its key in the upper 32 bits and every hit is checked (no history; the count of operations is reported). Non-trivial: >=1 hit on a key sharing its primary hash with another written key, or >=1 hit while a write to the same key was in flight (stress: >1000 checked hits with a stalled applier); distinct = FNV hash of (config, programs).",
     'C02': "cacheconc stage: 2..16 (thorough ..64) goroutines x 10..120 generated ops on 2..32 shared keys (hot-key bias, some owned keys), GOMAXPROCS 1..16, yielding/fake-sleeping callbacks, setBufSize 1..1024, MaxCost 3..22, inside a synctest bubble; every op and callback stamped from one atomic counter; history oracles are linear-time and schedule-independent. Oracle: no Get/IterValues invoked after a value's OnExit stamp returns it. cachesm stage: sequential client + harness-owned applier + synctest fake clock (DESIGN.md section 3, E1). Per case a config (MaxCost fitting 2..5 items or roomy, NumCounters, BufferItems, Metrics, IgnoreInternalCost, Cost fn, ShouldUpdate fn, ticker 1..5 s, setBufSize 1..64, bucket 1|5 s, 8|32 keys) and 5..60+ generated actions from Set/SetWithTTL/Del/Get/GetTTL/IterValues/Step(n)/Wait/park-in-Wait/Advance(d)/Sweep/SweepWith(program of Set/Del/Get/IterValues inside the j-th OnEvict)/Quiesce/UpdateMaxCost/Clear (stand-in or live applier), always ended by drain + Close + calls on the closed cache. Oracle: reference model with explicit FIFO (rules R1-R9); only assertions owned by this property are reported, a case that breaks another property's assertion first is discarded and counted. C02-owned: no read returns a value already passed to OnExit / already overwritten. Non-trivial (conc): >=1 served value that later exited; (cachesm): eviction, expiry or Del occurred and a drained check saw residents.",
